@@ -303,8 +303,15 @@ func (rw *ReadWriter) Initialize() error {
 		isArray := false
 		goType := field.Type
 
+		if !field.IsExported() {
+			return fmt.Errorf("field '%s' is not exported", field.Name)
+		}
+
 		// array
 		if goType.Kind() == reflect.Array {
+			if goType.Len() < 1 || goType.Len() > 255 {
+				return fmt.Errorf("invalid array length: %d", goType.Len())
+			}
 			arrayLength = byte(goType.Len())
 			isArray = true
 			goType = goType.Elem()
@@ -346,13 +353,17 @@ func (rw *ReadWriter) Initialize() error {
 
 			// string or char
 			if goType.Kind() == reflect.String {
+				if isArray {
+					return fmt.Errorf("arrays of strings are not supported")
+				}
+
 				tagLen := field.Tag.Get("mavlen")
 
 				if len(tagLen) == 0 { // char
 					arrayLength = 1
 				} else { // string
 					slen, err := strconv.Atoi(tagLen)
-					if err != nil {
+					if err != nil || slen < 1 || slen > 255 {
 						return fmt.Errorf("string has invalid length: %v", tagLen)
 					}
 					arrayLength = byte(slen)
@@ -391,6 +402,26 @@ func (rw *ReadWriter) Initialize() error {
 		if !isExtension {
 			rw.sizeNormal += size
 		}
+	}
+
+	// extension fields must follow base fields, and the payload cannot exceed 255 bytes
+	seenExtension := false
+	sizeTotal := 0
+	for _, f := range rw.fields {
+		if f.isExtension {
+			seenExtension = true
+		} else if seenExtension {
+			return fmt.Errorf("extension fields must be declared after base fields")
+		}
+
+		if f.arrayLength > 0 {
+			sizeTotal += int(fieldTypeSizes[f.ftype]) * int(f.arrayLength)
+		} else {
+			sizeTotal += int(fieldTypeSizes[f.ftype])
+		}
+	}
+	if sizeTotal > 255 {
+		return fmt.Errorf("message is too big: %d bytes", sizeTotal)
 	}
 
 	// reorder fields as described in
